@@ -82,12 +82,13 @@ Proof.
   cbn [map field_slice assoc_field fst snd] in *. rewrite (key_is_uint k k' Hk), IH. reflexivity.
 Qed.
 
-(* the keys of an emitted witness set are 3, 6, 7, 4, 5 and there are at most five fields *)
-Lemma ws_fields_keys w : Forall (fun kv => fst kv < two64) (ws_fields w) /\ (length (ws_fields w) <= 5)%nat.
+(* the keys of an emitted witness set are 0, 1, 2, 3, 6, 7, 4, 5 and there are at most eight fields *)
+Lemma ws_fields_keys w : Forall (fun kv => fst kv < two64) (ws_fields w) /\ (length (ws_fields w) <= 8)%nat.
 Proof.
-  rewrite ws_fields_eq. unfold script_fields.
-  destruct (ws_plutus_scripts w) as [l|];
-    [destruct (has_version V1 l), (has_version V2 l), (has_version V3 l)|];
+  unfold ws_fields, early_fields.
+  destruct (ws_vkeys w); (destruct (ws_native w) as [nl|]; [destruct (is_nil nl)|]); destruct (ws_bootstraps w);
+  (destruct (ws_plutus_scripts w) as [l|];
+    [destruct (has_version V1 l), (has_version V2 l), (has_version V3 l)|]);
     (destruct (ws_plutus_data w) as [d|]; [destruct (is_nil (pl_elems d))|]);
     (destruct (ws_redeemers w) as [r|]; [destruct (is_nil (rs_list r))|]);
     cbn [app length]; (split; [repeat constructor|lia]).
@@ -116,14 +117,15 @@ Theorem same_bytes_history_bytes (H : bytes -> bytes) ops cm before t :
   let b := fst (run H builder_new ops) in
   is_ok (calc_script_data_hash H b0 cm) = true ->
   has_script_items b0 || is_none (b_script_data_hash b0) = true ->
+  known_stale_lang b0 = false ->
   build_tx H b = Ok t ->
   Forall (fun kv => item_wf (snd kv) = true) (ws_fields (tx_witness_set t)) ->
   exists sl, map_slices (ws_bytes (tx_witness_set t)) = Ok sl /\
     tx_script_data_hash t = ledger_script_integrity H (field_slice 5 sl) (field_slice 4 sl) (langs_used b) cm.
 Proof.
-  intros Hl b0 b Hok Hprior Hbuild Hwf.
+  intros Hl b0 b Hok Hprior Hstale Hbuild Hwf.
   destruct (ws_slices_sound _ Hwf) as [sl [Hs [E5 E4]]]. exists sl. split; [exact Hs|].
-  rewrite E5, E4. exact (same_bytes_history H ops cm before t Hl Hok Hprior Hbuild).
+  rewrite E5, E4. exact (same_bytes_history H ops cm before t Hl Hok Hprior Hstale Hbuild).
 Qed.
 
 (* ================================================================== containers of delimited items are delimited *)
@@ -303,16 +305,17 @@ Theorem judge_builder_accepts_model (H : bytes -> bytes) ops cm before other t :
   last_calc_rev (rev ops) = Some (cm, before) ->
   is_ok (calc_script_data_hash H (fst (run H builder_new (rev before))) cm) = true ->
   has_script_items (fst (run H builder_new (rev before))) || is_none (b_script_data_hash (fst (run H builder_new (rev before)))) = true ->
+  known_stale_lang (fst (run H builder_new (rev before))) = false ->
   other_ok other -> len (body_fields other t) < two64 ->
   hash_ok (tx_script_data_hash t) -> hash_ok (tx_aux_data_hash t) ->
   Forall (fun kv => item_wf (snd kv) = true) (ws_fields (tx_witness_set t)) ->
   (match tx_aux t with Some a => item_wf (enc_aux a) = true | None => True end) ->
   judge_builder H ops (tx_bytes other t) = Holds.
 Proof.
-  intros Hb Hl Hok Hprior Ho Hlen Hs Ha Hws Haux.
+  intros Hb Hl Hok Hprior Hstale Ho Hlen Hs Ha Hws Haux.
   unfold judge_builder. rewrite (view_tx_sound other t Ho Hlen Hs Ha Hws Haux).
   cbn [v_aux_hash v_aux v_script_data_hash v_redeemers v_datums].
   rewrite (aux_hash H _ _ Hb), opt_bytes_eqb_refl. cbn [negb].
   rewrite Hl, Hok, Hprior. cbn [andb].
-  rewrite (same_bytes_history H ops cm before t Hl Hok Hprior Hb), opt_bytes_eqb_refl. reflexivity.
+  rewrite (same_bytes_history H ops cm before t Hl Hok Hprior Hstale Hb), opt_bytes_eqb_refl. reflexivity.
 Qed.
